@@ -177,3 +177,6 @@ package bpv7
 //@ loop 1 invariant forall j int :: 0 <= j && j < len(blockNumbers) ==> blockNumbers[j] == b.CanonicalBlocks[j].BlockNumber
 //@ loop 2 invariant 0 <= rangeindex + 1 && rangeindex + 1 <= len(blockNumbers)
 //@ loop 2 invariant forall j int :: 0 <= j && j < rangeindex + 1 ==> blockNumbers[j] != blockNumber
+
+// At most one previous-node block (C02: one block per type).
+// govc:spec prevUnique(b Bundle) bool = forall j, k int :: 0 <= j && j < len(b.CanonicalBlocks) && 0 <= k && k < len(b.CanonicalBlocks) && b.CanonicalBlocks[j].Value.BlockTypeCode() == 6 && b.CanonicalBlocks[k].Value.BlockTypeCode() == 6 ==> j == k
